@@ -622,10 +622,14 @@ func propC15(w *World, r *Report) {
 		var got []string
 		for _, p := range blk.Preds {
 			iff, ok := p.Instrs[len(p.Instrs)-1].(*ssa.If)
-			if !ok || p.Succs[0] != blk {
+			if !ok {
 				continue
 			}
+			// the condition under which this edge is taken (the negation when the store sits on the else side)
 			c := e.termOf(iff.Cond)
+			if p.Succs[0] != blk {
+				c = tnot(c)
+			}
 			got = append(got, c.String())
 			if c.Op == "lt" && strings.Contains(c.Args[0].String(), "cptvframe.Frame.Pix@param:cptvframe.Frame") && strings.Contains(c.Args[0].String(), "-1*index(index("+d.leaf("weights")) &&
 				strings.Contains(c.Args[1].String(), "cptvframe.Frame.Pix@"+bg) {
